@@ -5,6 +5,7 @@ use crate::util::{Ctx, Tier};
 pub mod c03;
 pub mod c04;
 pub mod c05;
+pub mod c05_shapes;
 pub mod c06;
 pub mod c07;
 pub mod c07_grid;
